@@ -414,8 +414,59 @@ class C19(Prop):
             lambda t: dict(t[0], l2_on=t[1], l2_off=t[1] + t[2] if t[1] is not None else None,
                            l2_first=t[3], l3=t[4]))
 
+    def fixed_cases(self, tier):
+        from vf import matrix
+        return matrix.bulk_cases()
+
+    def run_bulk(self, res, params):
+        """one bulk removal of the enumerated family (vf/matrix.py) under a recording listener"""
+        from vf import matrix
+        import spydrnet as sdn
+
+        sdn.namespace_manager.default = "DEFAULT"
+        Rec = make_listener_class()
+        r1 = Rec()
+        try:
+            sc = matrix.build_bulk(params)
+            U = ops.Universe()
+            U.absorb(sc["netlist"])
+            for x in sc["keep"]:
+                U.absorb(x)
+            U.refresh_outer()
+            d0 = compare(r1, U)
+            if d0:
+                res.violate("C19:mirror-diverged-during-build:%s" % d0[0][0], d0[0][1])
+                return res
+            r1.new_call()
+            try:
+                sc["call"]()
+                exc = None
+            except Exception as e:  # noqa
+                exc = e
+            U.refresh_outer()
+            res.label("bulk-family", "bulk-" + ("refused" if exc else "accepted"))
+            res.nontrivial = True
+            if exc is None and r1.before_bad:
+                res.violate("C19:announced-after-effect:%s:bulk-%s" % (r1.before_bad[0], sc["kind"]),
+                            "family %r" % (params,))
+                return res
+            diff = compare(r1, U)
+            if diff:
+                res.violate("C19:%s:%s:bulk-%s" % ("mirror-diverged" if exc is None else "phantom-announcement",
+                                                 diff[0][0], sc["kind"]),
+                            "family %r%s: %s" % (params, "" if exc is None else " refused with %r" % (exc,),
+                                                 diff[0][1]))
+        finally:
+            try:
+                r1.deregister_all_listeners()
+            except AssertionError:
+                pass
+        return res
+
     def run(self, case):
         res = Result()
+        if "bulk" in case:
+            return self.run_bulk(res, case["bulk"])
         Rec = make_listener_class()
         recs = []
         r1 = Rec()
